@@ -897,6 +897,12 @@ pub async fn handle_connection(
                 let (mut response, body) = utils::split_response(limiting::get_too_many_requests());
                 response_pipe.ensure_length(&mut response, body.len() as u64);
                 response_pipe.ensure_version(&mut response);
+                // a response to HEAD has no body
+                let body = if request.method() == Method::HEAD {
+                    Bytes::new()
+                } else {
+                    body
+                };
 
                 let mut body_pipe =
                     ret_log_app_error!(response_pipe.send_response(response, false).await);
